@@ -316,7 +316,7 @@ class TexNode(object):
         ' Nested\n    '
         """
         for descendant in self.contents:
-            if isinstance(descendant, (TexText, Token)):
+            if isinstance(descendant, str):  # TexText, Token or plain str
                 yield descendant
             elif hasattr(descendant, 'text'):
                 yield from descendant.text
@@ -352,7 +352,7 @@ class TexNode(object):
             \item Hello
         \end{itemize}
         """
-        self.expr.append(*nodes)
+        self.expr.append(*self.__exprs(nodes))
 
     def insert(self, i, *nodes):
         r"""Add node(s) to this node's list of children, at position i.
@@ -390,7 +390,7 @@ class TexNode(object):
             )
             node.parent = self
 
-        self.expr.insert(i, *nodes)
+        self.expr.insert(i, *self.__exprs(nodes))
 
     def char_pos_to_line(self, char_pos):
         r"""Map position in the original string to parsed LaTeX position.
@@ -592,6 +592,7 @@ class TexNode(object):
         \item Bye
         \end{itemize}
         """
+        nodes = self.__exprs(nodes)
         holder = self.__holder(child.expr)
         if holder is not None:
             holder.insert(holder.remove(child.expr), *nodes)
@@ -616,6 +617,11 @@ class TexNode(object):
                 body = match.group()  # group() returns the full match
                 start = match.start()
                 yield Token(body, node.position + start)
+
+    @staticmethod
+    def __exprs(nodes):
+        """The tree stores expressions, not the node wrappers around them."""
+        return [n.expr if isinstance(n, TexNode) else n for n in nodes]
 
     def __holder(self, expr):
         """The argument or expression of this node whose contents hold `expr`
